@@ -45,7 +45,7 @@ class C12(PropCheck):
         return json.dumps(case, sort_keys=True, default=str)
 
     def sample_of(self, case, run):
-        return dict(case=case, outcome=run.get("outcome"), validate=run.get("validate"))
+        return dict(case=case, outcome=run.get("outcome", run.get("outcomes")), validate=run.get("validate"))
 
     def stats(self, case, run, acc):
         k = case["kind"]
@@ -60,6 +60,10 @@ class C12(PropCheck):
                 acc["with_layout"] = acc.get("with_layout", 0) + 1
             if case["dim"] == 3:
                 acc["three_d"] = acc.get("three_d", 0) + 1
+        elif k == "hist":
+            key = "hist:" + ("unbuilt" if not run["built"] else ",".join(str(o[0]) for o in run["outcomes"]))
+            if run["built"] and len({o[0] == 0 for o in run["outcomes"]}) == 2:
+                acc["histories_with_both_verdicts"] = acc.get("histories_with_both_verdicts", 0) + 1
         elif k == "dev":
             key = f"dev:{run['outcome'][0]}"
         elif k == "mc":
